@@ -25,6 +25,99 @@ type Case struct {
 	Aborted bool `json:"aborted,omitempty"`
 	// Allow: case of the hosts-allow part (405 + automatic OPTIONS router)
 	Allow bool `json:"allow,omitempty"`
+	// Before: patterns registered before Set and deleted after it (part hosts-after-history)
+	Before []string `json:"before,omitempty"`
+}
+
+// buildAfterHistory registers the patterns of before, then set, then deletes the patterns of before.
+func buildAfterHistory(set []rsx.RouteSpec, before []string) (*rsx.Env, error) {
+	e := rsx.NewEnv(rsx.Profile{})
+	e.Set = set
+	for k, p := range before {
+		if _, err := e.F.Handle("GET", p, e.Handler(len(set)+k)); err != nil {
+			return nil, err
+		}
+	}
+	for i, sp := range set {
+		rt, err := e.F.Handle(sp.Method, sp.Pattern, e.Handler(i), rsx.RouteOpts(i, sp)...)
+		if err != nil {
+			return nil, err
+		}
+		e.Routes = append(e.Routes, rt)
+	}
+	for _, p := range before {
+		if _, err := e.F.Delete("GET", p); err != nil {
+			return nil, err
+		}
+	}
+	e.BuildRef()
+	return e, nil
+}
+
+// runAfterHistory: routers whose hostname tree was shaped by routes that are gone: two patterns registered first,
+// the set registered on top of the nodes they created (a route landing exactly on a split node, below it, next to
+// it), then the two deleted. Pool: paths that share prefixes (/a, /ab, /ac, /) under a static and a parameter
+// hostname, plus path-only twins.
+func runAfterHistory(c *mc.Ctx, r *mc.Result) {
+	var pats []string
+	for _, h := range []string{"a.b", "{h}.b", ""} {
+		for _, p := range []string{"/", "/a", "/ab", "/ac"} {
+			pats = append(pats, h+p)
+		}
+	}
+	hosts := []string{"", "a.b", "x.b", "a.b:80", "a.b.", "b", "a.c"}
+	paths := []string{"/", "/a", "/ab", "/ac", "/b", "/a/"}
+	r.Bounds["history"] = fmt.Sprintf("%d patterns: every set of <=2 x every ordered list of <=2 other patterns registered before it and deleted after it x %d hosts x %d paths", len(pats), len(hosts), len(paths))
+	n := 0
+	rsx.Subsets(len(pats), 2, func(i int, idx []int) {
+		in := map[int]bool{}
+		set := make([]rsx.RouteSpec, 0, len(idx))
+		for _, j := range idx {
+			in[j] = true
+			set = append(set, rsx.RouteSpec{Method: "GET", Pattern: pats[j]})
+		}
+		var befores [][]string
+		for a := range pats {
+			if in[a] {
+				continue
+			}
+			befores = append(befores, []string{pats[a]})
+			for b := range pats {
+				if b != a && !in[b] {
+					befores = append(befores, []string{pats[a], pats[b]})
+				}
+			}
+		}
+		for _, before := range befores {
+			n++
+			if !c.Mine(n) {
+				continue
+			}
+			e, err := buildAfterHistory(set, before)
+			if err != nil {
+				r.Count("histories_rejected_by_router", 1)
+				continue
+			}
+			r.States++
+			for _, h := range hosts {
+				for _, p := range paths {
+					rq := rsx.Req{Method: "GET", Host: h, Path: p}
+					abst, nontriv, class, msg := eval(e, rq)
+					r.Evaluations++
+					r.Transitions++
+					if abst {
+						r.Abstained++
+					}
+					if nontriv {
+						r.DistinctNontrivial++
+					}
+					if class != "" {
+						r.Violate("hosts-after-history", class, fmt.Sprintf("[%v registered before the set and deleted after it] ", before)+msg, Case{Set: set, Req: rq, Before: before})
+					}
+				}
+			}
+		}
+	})
 }
 
 func buildAfterDelete(set []rsx.RouteSpec, extra string, first bool) (*rsx.Env, error) {
@@ -586,6 +679,17 @@ func replay(c *mc.Ctx, raw json.RawMessage) string {
 		}
 		return msg
 	}
+	if len(cs.Before) > 0 {
+		e, err := buildAfterHistory(cs.Set, cs.Before)
+		if err != nil {
+			return ""
+		}
+		_, _, _, msg := eval(e, cs.Req)
+		if msg != "" {
+			msg = fmt.Sprintf("[%v registered before the set and deleted after it] ", cs.Before) + msg
+		}
+		return msg
+	}
 	if cs.Extra != "" {
 		e, err := buildAfterDelete(cs.Set, cs.Extra, cs.ExtraFirst)
 		if err != nil {
@@ -613,12 +717,12 @@ func init() {
 	mc.Register(&mc.Check{
 		ID:    "C09",
 		Level: "exploration",
-		Rule: "every subset (size<=K) of a 35-pattern pool mixing hostname and path-only patterns x every Host string up to a length over {a,b,1,.} plus structured variants (port, trailing dot, IPv4/IPv6 literals, empty, garbage) x paths of depth<=2; the same on routers that additionally went through the registration and deletion of one more pattern (part hosts-after-delete) or through an aborted transaction that registered one more pattern (part hosts-after-abort); the Allow lists of automatic OPTIONS and 405 answers under the same host obligations (part hosts-allow); " +
+		Rule: "every subset (size<=K) of a 35-pattern pool mixing hostname and path-only patterns x every Host string up to a length over {a,b,1,.} plus structured variants (port, trailing dot, IPv4/IPv6 literals, empty, garbage) x paths of depth<=2; the same on routers that additionally went through the registration and deletion of one more pattern (part hosts-after-delete) or through an aborted transaction that registered one more pattern (part hosts-after-abort), or whose tree was shaped by two patterns registered before the set and deleted after it (part hosts-after-history); the Allow lists of automatic OPTIONS and 405 answers under the same host obligations (part hosts-allow); " +
 			"non-trivial = the method has hostname routes and the host equals a hostname pattern or contains its distinguishing label",
 		Assumptions: []string{
 			"host normalisation reference: net.SplitHostPort when a ':' is present (unchanged on error), then one trailing dot removed",
 			"obligations are host-only: whole-host equality of any selected hostname route, value round trip, exact path-only answer when no hostname route can be involved, reference direct match under a matching host (direct matching itself is validated by C01)",
 		},
-		Parts: []mc.Part{{Name: "hosts", Run: run, Replay: replay}, {Name: "hosts-after-delete", Run: runAfterDelete, Replay: replay}, {Name: "hosts-after-abort", Run: runAfterAbort, Replay: replay}, {Name: "hosts-allow", Run: runAllow, Replay: replay}},
+		Parts: []mc.Part{{Name: "hosts", Run: run, Replay: replay}, {Name: "hosts-after-delete", Run: runAfterDelete, Replay: replay}, {Name: "hosts-after-abort", Run: runAfterAbort, Replay: replay}, {Name: "hosts-allow", Run: runAllow, Replay: replay}, {Name: "hosts-after-history", Run: runAfterHistory, Replay: replay}},
 	})
 }
